@@ -1502,6 +1502,21 @@ def _as_written(ctx, fi, e, seen):
     if isinstance(e, ast.Subscript):
         return _as_written(ctx, fi, e.value, seen)
     if isinstance(e, ast.Call):
+        # a helper of the module that only picks parts out of its arguments: return a[2], b[1], c[1]
+        hs = [t.func for t in ctx.cg.resolve_call(e, fi) if t.kind == 'func']
+        if len(hs) == 1 and hs[0].module.name == fi.module.name and hs[0].fq != fi.fq and len(seen) < 6:
+            h = hs[0]
+            rets = [x for x in walk_local(h.node) if isinstance(x, ast.Return) and x.value is not None]
+            if rets:
+                parts = []
+                for r_ in rets:
+                    parts += list(r_.value.elts) if isinstance(r_.value, ast.Tuple) else [r_.value]
+                inner = [_as_written(ctx, h, p_, set()) for p_ in parts]
+                outer = [_as_written(ctx, fi, a_, seen) for a_ in e.args]
+                if all(v_ == 'ok' for v_, _ in inner + outer):
+                    return 'ok', f'{h.qualname} hands parts of its arguments back unchanged'
+                if any(v_ == 'undecided' for v_, _ in inner + outer):
+                    return 'undecided', f'through {h.qualname}'
         return 'violation', f'the key is the result of `{norm(e)[:50]}`'
     if not isinstance(e, ast.Name):
         return 'undecided', f'key `{norm(e)[:40]}`'
@@ -1581,7 +1596,14 @@ def r135(ctx: Ctx) -> RuleReport:
                 rep.undecided(key, rf.loc(r), norm(role))
     df = ctx.repo.func(M, 'Model.dereify')
     tp = df.positional[1] if len(df.positional) > 1 else 'instance_triple'
-    for n in walk_local(df.node):
+    # the test may sit in a helper that is handed the instance triple as its first argument
+    sites_ = [(df, tp)]
+    for c_, ts_ in ctx.cg.calls_in(df):
+        for t_ in ts_:
+            if t_.kind == 'func' and t_.func.module.name == M and c_.args and norm(c_.args[0]) == tp and t_.func.positional:
+                sites_.append((t_.func, t_.func.positional[0]))
+    for df, tp in sites_:
+      for n in walk_local(df.node):
         if isinstance(n, ast.Compare) and len(n.ops) == 1 and isinstance(n.ops[0], (ast.Eq, ast.NotEq)) and norm(n.left) == f'{tp}[1]':
             other = n.comparators[0]
             key = f'{df.fq}: `{norm(n)}` recognises the instance triple by CONCEPT_ROLE'
